@@ -104,9 +104,11 @@ def getXSTypeLabelFromNumber(xsTypeNumber: int) -> str:
     2-digit labels are supported when there is only one burnup group.
     """
     try:
-        if xsTypeNumber > ord("Z"):
-            # two digit. Parse
-            return chr(int(str(xsTypeNumber)[:2])) + chr(int(str(xsTypeNumber)[2:]))
+        digits = str(xsTypeNumber)
+        if len(digits) > 3 or (len(digits) == 3 and digits[0] != "1"):
+            # two characters. Codes starting with 1 (100-122, lower case) have three digits
+            split = 3 if digits[0] == "1" else 2
+            return chr(int(digits[:split])) + chr(int(digits[split:]))
         elif xsTypeNumber < ord("A"):
             raise ValueError(
                 f"Cannot convert invalid xsTypeNumber `{xsTypeNumber}` to char. "
